@@ -113,7 +113,7 @@ func (l *Lexer) readLeadingComments() {
 				l.hadNewlineBefore = true
 				l.ReadChar()
 			}
-			l.leadingComments = append(l.leadingComments, strings.TrimRight(comment.String(), " "))
+			l.leadingComments = append(l.leadingComments, strings.TrimRight(comment.String(), " \r"))
 		}
 
 		if !isWhitespace(l.CurrentChar) {
